@@ -822,6 +822,10 @@ func watchdog() {
 		last := vrt.LastActivity.Load()
 		if last != 0 && time.Since(time.Unix(0, last)) > 10*time.Second {
 			fmt.Fprintln(os.Stderr, "sched: watchdog: no scheduling activity for 10 s (native blocking?) - inconclusive")
+			if os.Getenv("VERIF_DEBUG") != "" {
+				buf := make([]byte, 1<<20)
+				os.Stderr.Write(buf[:runtime.Stack(buf, true)])
+			}
 			os.Exit(3)
 		}
 	}
